@@ -339,7 +339,7 @@ def mk_add_bank(name):
             E = [e for e in flat_events(r['events']) if e[0] == 'call']
             li = [i for i, e in enumerate(E) if re.search(r'AccountLoader.*load_init$', e[1])]
             nw = [i for i, e in enumerate(E) if re.search(r'Bank[^:]*::new$|<impl[^>]*>::new$', e[1]) and 'Bank' in short(e[1])]
-            if len(li) != 1 or len(nw) != 1: ob.structural(f'{len(li)} load_init / {len(nw)} Bank::new calls on an accepting path', 'init-shape', {'trace': [short(e[1]) for e in E][:40]}); continue
+            if len(li) != 1 or len(nw) != 1: ob.shape(min(len(li), len(nw)), 1, f'{len(li)} load_init / {len(nw)} Bank::new calls on an accepting path', 'init-shape', {'trace': [short(e[1]) for e in E][:40]}); continue
             bank = f'{E[li[0]][2][0]}.acct'
             def need(pat, what):
                 c = [(i, e) for i, e in enumerate(E) if re.search(pat, e[1]) and i > nw[0] and cellname(e[2][0]) == bank]
